@@ -204,7 +204,7 @@ func CheckFunc(P *Program, fn *ssa.Function, c *FuncContract) (rep *FuncReport) 
 	}
 	rep.final = final
 	rep.results = results
-	post := &EvalCtx{ex: ex, st: final, old: ex.old, vars: map[string]tv{}, pkgPath: c.PkgPath}
+	post := &EvalCtx{ex: ex, st: final, old: ex.old, vars: map[string]tv{}, pkgPath: c.PkgPath, fr: fr}
 	for k, v := range vars {
 		post.vars[k] = v
 	}
